@@ -39,5 +39,6 @@ Src_l1(n) == {A("nf"), A("parseerr")} \cup {Ok(<<Mod(n, i, "ok")>>) : i \in {<<>
 
 NoConstImp == <<>>
 Export == (pc = "done") => PrintT(ToJson(Scenario))
-ExportSome == (pc = "done" /\ (Len(log) + Cardinality(DOMAIN env)) % 7 = 0) => PrintT(ToJson(Scenario))
+\* a random seventh of the terminal states (TLC's RandomElement, reproducible through -seed): an unbiased thinning
+ExportSome == (pc = "done" /\ RandomElement(1..7) = 1) => PrintT(ToJson(Scenario))
 ====
